@@ -62,12 +62,20 @@ func capture(f func()) []byte {
 
 var (
 	reStamp = regexp.MustCompile(`(?m)^\d{4}/\d{2}/\d{2} \d{2}:\d{2}:\d{2}(\.\d+)? `)
-	reNum   = regexp.MustCompile(`[-+]?(\d+\.?\d*|\.\d+)([eE][-+]?\d+)?|NaN|[-+]?Inf`)
+	reNum   = regexp.MustCompile(`0[xX][0-9a-fA-F]+|[-+]?(\d+\.?\d*|\.\d+)([eE][-+]?\d+)?|NaN|[-+]?Inf`)
+	// counts spelled out, and units behind a number
+	reWord = regexp.MustCompile(`(?i)\b(no|none|zero|one|two|three|four|five|six|seven|eight|nine|ten|eleven|twelve|thirteen|fourteen|fifteen|sixteen|seventeen|eighteen|nineteen|twenty|thirty|forty|fifty|sixty|seventy|eighty|ninety|hundred|thousand|million|once|twice)\b`)
+	reUnit = regexp.MustCompile(`#(ns|µs|us|ms|s|m|h|B|kB|KiB|MB|MiB|%)\b`)
 )
 
 func normaliseDiag(b []byte) string {
 	s := reStamp.ReplaceAllString(string(b), "")
-	return reNum.ReplaceAllString(s, "#")
+	s = reNum.ReplaceAllString(s, "#")
+	s = reWord.ReplaceAllString(s, "#")
+	for i := 0; i < 3; i++ {
+		s = reUnit.ReplaceAllString(s, "#")
+	}
+	return s
 }
 
 // diagInterference compares two normalised captures line by line as
@@ -194,14 +202,14 @@ var c18Chars = []string{"Q", "J", "K", "Z", "X", "V", "W", "q", "j", "z", "@", "
 
 func c18Run(c c18Case) error {
 	var diagSeen, rejected bool
-	// which of the (up to six) streams of this case is running: forced constant
+	// which of the (up to eight) streams of this case is running: forced constant
 	// choices differ per stream
 	streamIdx := 0
 	constChoice := func(n uint32) uint32 {
 		if n == 0 {
 			return 0
 		}
-		return []uint32{0, n - 1, n / 2, 1, n / 3, 2 * (n / 3)}[streamIdx] % n
+		return []uint32{0, n - 1, n / 2, 1, n / 3, 2 * (n / 3), n / 4, 3 * (n / 4)}[streamIdx] % n
 	}
 	type one struct {
 		capt  string
@@ -383,11 +391,12 @@ func c18Run(c c18Case) error {
 		if x, y, bad := diagInterference(na, nb); bad {
 			// The same message in two wordings. A count can legitimately change
 			// the wording ("1 candidate was" / "# candidates were", a unit), but
-			// only between a few fixed forms; text taken from the secrets changes
-			// with every stream. Four more streams: four or more wordings of this
-			// message among the six is interference.
+			// only between a few fixed forms (numbers, spelled-out counts and
+			// units are normalised away first); text taken from the secrets changes
+			// with every stream. Six more streams: five or more wordings of this
+			// message among the eight is interference.
 			forms := map[string]bool{x: true, y: true}
-			for i := 2; i < 6; i++ {
+			for i := 2; i < 8; i++ {
 				streamIdx = i
 				more, err := run(ev.Mix64(c.Key1^c.Key2, uint64(i)))
 				if err != nil {
@@ -399,7 +408,7 @@ func c18Run(c c18Case) error {
 					}
 				}
 			}
-			if len(forms) < 4 {
+			if len(forms) < 5 {
 				ev.Class("diagnostic_wording_depends_on_stream_few_forms")
 				goto niDone
 			}
